@@ -36,7 +36,7 @@ static std::string guard(const char* what, F f)
 static std::string dec(const toks_t& t)
 {
     const std::string fmt = t.at(2);
-    std::string bytes = t.size() > 3 ? unhex(t.at(3)) : std::string();
+    std::string bytes = (t.size() > 3 && t[3] != "-") ? unhex(t.at(3)) : std::string();   // "-" stands for the empty input
     std::vector<uint8_t> v(bytes.begin(), bytes.end());
     std::string out = "ok";
     if (fmt == "json")
@@ -105,11 +105,11 @@ static std::string dec(const toks_t& t)
 static std::string expr(const toks_t& t)
 {
     const std::string kind = t.at(2);
-    std::string text = (t.size() > 3 && t[3] != "|") ? unhex(t.at(3)) : std::string();
+    std::string text = (t.size() > 3 && t[3] != "|" && t[3] != "-") ? unhex(t.at(3)) : std::string();
     std::size_t p = 3;
     while (p < t.size() && t[p] != "|") ++p;
     jc::json doc;
-    if (p < t.size()) { ++p; doc = read_val<jc::json>(t, p); }
+    if (p + 1 < t.size()) { ++p; doc = read_val<jc::json>(t, p); }
     std::string out = "ok";
     if (kind == "jsonpath")
     {
